@@ -296,4 +296,6 @@ def run(ctx: Context) -> None:
     ctx.isolate(r4_resolution_at_submission)
     ctx.isolate(r5_resolve_completed)
     from . import c06
-    ctx.isolate(c06.r9_cascade_exemptions, _alias={"C06.R9": "C07.R6"})
+    ctx.isolate(c06.r9_cascade_exemptions, _alias={"C06.R9": "C07.R6", "C06.R11": "C07.R6b"})
+    from . import c19
+    ctx.isolate(c19.r10_flags_threaded, _alias={"C19.R10": "C07.R7"})
